@@ -229,3 +229,119 @@ contract(Contract(
         ("if not prev_is_empty and _is_tag_only_line(prev_line) and line_is_block_content(line):", "if not prev_is_empty and _is_tag_only_line(prev_line) and line_is_block_content(prev_line):", None, ["separated_where_needed", "blank_only_outside"]),
     ],
 ))
+
+
+# --------------------------------------------------------------------------- _fix_multiline_opening_tag_with_closing
+_ML_GROUPS = ("closing_tag", "closing_comment", "closing_var", "closing_html")
+
+
+def _mgroup_model(ex, node, args, kwargs):
+    from vfcore.theory import Ref
+    from vfcore.values import VOpt
+    m, g = ex.z(args[0]), ex.z(args[1])
+    return VOpt(ex.th.uf("match_gnone", Ref, ex.th.Str, z3.BoolSort())(m, g), ex.wrap(ex.th.uf("match_gstr", Ref, ex.th.Str, ex.th.Str)(m, g), "str"))
+
+
+def _search_model(ex, node, args, kwargs):
+    """assumed of re.Pattern.search(line): None, or a match whose start and whose named-group starts are positions in line"""
+    from vfcore.theory import Int, Ref
+    line = args[-1]
+    t = ex.z(line)
+    m = ex.th.uf("msearch", ex.th.Str, Ref)(t)
+    none = ex.th.uf("msearch#none", ex.th.Str, z3.BoolSort())(t)
+    L = ex.th.length(t)
+    st = ex.th.uf("match_start", Ref, Int)(m)
+    ex.pc.append(z3.Implies(z3.Not(none), z3.And(0 <= st, st <= L)))
+    gs = ex.th.uf("match_gstart", Ref, ex.th.Str, Int)
+    gn = ex.th.uf("match_gnone", Ref, ex.th.Str, z3.BoolSort())
+    for g in _ML_GROUPS:
+        p = gs(m, ex.z(g))
+        ex.pc.append(z3.Implies(z3.Not(none), z3.And(st <= p, p <= L)))
+    # every alternative of the pattern contains its named group outside any optional part (ST obligation
+    # shape/...:_multiline_closing_pattern/every_alternative_has_its_named_group of C06), so a match has one of them
+    ex.pc.append(z3.Implies(z3.Not(none), z3.Or(*[z3.Not(gn(m, ex.z(g))) for g in _ML_GROUPS])))
+    from vfcore.values import VOpt
+    return VOpt(none, ex.wrap(m, "ref", cls="Match"))
+
+
+def _mstart_model(ex, node, args, kwargs):
+    from vfcore.theory import Int, Ref
+    m = args[0]
+    if len(args) == 1:
+        return ex.wrap(ex.th.uf("match_start", Ref, Int)(ex.z(m)), "int")
+    return ex.wrap(ex.th.uf("match_gstart", Ref, ex.th.Str, Int)(ex.z(m), ex.z(args[1])), "int")
+
+
+ML_DEFS = {
+    "m(l)": "call('Pattern.search', l)",
+    "tagstart(l)": "lstrip(l).startswith('{%') or lstrip(l).startswith('{#') or lstrip(l).startswith('{{') or lstrip(l).startswith('<!--')",
+    "opened_here(l)": "('{%' in l[0:val(m(l)).start()]) or ('{#' in l[0:val(m(l)).start()]) or ('{{' in l[0:val(m(l)).start()])"
+                      " or ('<!--' in l[0:val(m(l)).start()])",
+    # the line is the tail of a multi-line opening tag followed by its closing tag (the documented Markdoc work-around)
+    "splits(l)": "not tagstart(l) and not isnone(m(l)) and not opened_here(l)",
+    "grp(l, g)": "not isnone(val(m(l)).group(g))",
+    "cut(l)": "ite(grp(l, 'closing_tag'), val(m(l)).start('closing_tag'), ite(grp(l, 'closing_comment'), val(m(l)).start('closing_comment'),"
+              " ite(grp(l, 'closing_var'), val(m(l)).start('closing_var'), val(m(l)).start('closing_html'))))",
+    "anygrp(l)": "grp(l, 'closing_tag') or grp(l, 'closing_comment') or grp(l, 'closing_var') or grp(l, 'closing_html')",
+}
+
+contract(Contract(
+    target=M + ":_fix_multiline_opening_tag_with_closing",
+    props=["C06", "C04", "C05"],
+    assumes=["re.Pattern.search returns None or a match whose start() and named-group starts are positions inside the line; "
+             "what _multiline_closing_pattern matches is uninterpreted (bounded layer of C06), except that a match has one of its four "
+             "named groups (ST obligation every_alternative_has_its_named_group of C06)"],
+    shards=8,
+    params={"text": "str"},
+    types={"lines": "list[str]", "result_lines": "list[str]", "line": "str", "stripped": "str", "i": "int", "is_tag_start": "bool",
+           "match": "opt[ref:Match]", "split_pos": "int", "before": "str", "closing": "str", "group_name": "str",
+           "src": "list[int]", "part": "list[int]", "pos": "list[int]"},
+    calls={"Pattern.search": Callee("custom", handler=_search_model),
+           "Match.start": Callee("custom", handler=_mstart_model),
+           "Match.group": Callee("custom", handler=_mgroup_model)},
+    ghost={"src": "[]", "part": "[]", "pos": "[]"},
+    hooks=[
+        ("after", "call:result_lines.append#0", "pos.append(len(result_lines) - 1); src.append(i); part.append(0)"),
+        ("after", "call:result_lines.append#1", "pos.append(len(result_lines) - 1); src.append(i); part.append(1)"),
+        ("after", "call:result_lines.append#2", "src.append(i); part.append(2)"),
+        ("after", "call:result_lines.append#3", "pos.append(len(result_lines) - 1); src.append(i); part.append(0)"),
+    ],
+    defs=ML_DEFS,
+    loops={
+        0: Loop(inv={
+            "lens": "len(src) == len(result_lines) and len(part) == len(result_lines) and len(pos) == _i and len(result_lines) >= _i",
+            "entries": "all(0 <= src[k] and src[k] < _i and ite(part[k] == 0, result_lines[k] == lines[src[k]] and pos[src[k]] == k,"
+                       " ite(part[k] == 1, pos[src[k]] == k and k + 1 < len(result_lines) and part[k + 1] == 2 and src[k + 1] == src[k]"
+                       " and result_lines[k] == rstrip(lines[src[k]][0:cut(lines[src[k]])]),"
+                       " part[k] == 2 and k >= 1 and part[k - 1] == 1 and src[k - 1] == src[k] and pos[src[k]] == k - 1"
+                       " and result_lines[k] == lstrip(lines[src[k]][cut(lines[src[k]]):len(lines[src[k]])])))"
+                       " for k in range(len(result_lines)))",
+            "kept_in_order": "all(0 <= pos[j] and pos[j] < len(result_lines) and src[pos[j]] == j and implies(j > 0, pos[j - 1] < pos[j])"
+                             " for j in range(_i))",
+            # a line is split exactly when the documented pattern applies: never the first line, never a line that starts
+            # with a tag opener or that opened the tag it closes
+            "split_iff": "all(iff(part[pos[j]] == 1, j > 0 and splits(lines[j]) and anygrp(lines[j])) for j in range(_i))",
+            "last": "implies(_i > 0, pos[_i - 1] >= len(result_lines) - 2)",
+        }, modifies=["src", "part", "pos"], decreases="len(lines) - _i"),
+        1: Loop(unroll=True),
+    },
+    ensures={
+        "single_line_untouched": "implies(not ('\\n' in old('text')), result == old('text'))",
+        "joined": "implies('\\n' in old('text'), result == joinr('\\n', result_lines, 0, len(result_lines)))",
+        # every source line is kept in order; it is either copied verbatim or cut in two at the start of the closing tag, the
+        # blanks at the cut being the only characters dropped
+        "lines_kept": "implies('\\n' in old('text'), len(pos) == len(lines) and all(src[pos[j]] == j and implies(j > 0, pos[j - 1] < pos[j])"
+                      " and ite(part[pos[j]] == 0, result_lines[pos[j]] == lines[j],"
+                      " result_lines[pos[j]] == rstrip(lines[j][0:cut(lines[j])]) and"
+                      " result_lines[pos[j] + 1] == lstrip(lines[j][cut(lines[j]):len(lines[j])])) for j in range(len(lines))))",
+        "nothing_else_emitted": "implies('\\n' in old('text'), all(pos[src[k]] == k or (part[k] == 2 and pos[src[k]] == k - 1)"
+                                " for k in range(len(result_lines))))",
+        "split_iff": "implies('\\n' in old('text'), all(iff(part[pos[j]] == 1, j > 0 and splits(lines[j]) and anygrp(lines[j]))"
+                     " for j in range(len(lines))))",
+    },
+    canaries=[
+        ("                        before = line[:split_pos].rstrip()", "                        before = line[:split_pos].strip()", None, ["entries"]),
+        ("        if i == 0:", "        if i == 1:", None, ["split_iff"]),
+        ("                        closing = line[split_pos:].lstrip()", "                        closing = line[split_pos + 1:].lstrip()", None, ["entries"]),
+    ],
+))
